@@ -4,6 +4,7 @@ Batch == JsonDeserialize(IOEnv.TRACE_FILE)
 VARIABLES i, verdict
 vars == <<i, verdict>>
 Judge(e) == IF e.kind = "guess" THEN JudgeGuess(e.ms, e.tol, e.els, e.raised)
+            ELSE IF e.kind = "cycle" THEN JudgeCycle(e.elin, e.tol, e.els)
             ELSE JudgeLoad(e.ms, e.tol, e.els)
 Init == i = 0 /\ verdict = "init"
 Next == /\ i = 0 /\ i' \in 1..Len(Batch) /\ verdict' = Judge(Batch[i'])
